@@ -64,7 +64,7 @@ def documented_values(binp, name, world):
     return vals
 
 
-def run_cases(binp, cases, world, pool, nshards):
+def run_cases(binp, cases, world, pool, nshards, K=1):
     """cases: list of (route, name, type, value, readname) -> list of result lines (without the index).
     The parent of the forked children runs with --cfg=debug/stacktrace:none (a child that ends in xbt_die otherwise spends
     a second resolving its backtrace), except for the cases about the debug/stacktrace items themselves."""
@@ -73,11 +73,13 @@ def run_cases(binp, cases, world, pool, nshards):
         rest = [i for i in range(len(cases)) if i not in set(special)]
         res = [None] * len(cases)
         for idx in (special, rest):
-            for i, l in zip(idx, run_cases(binp, [cases[i] for i in idx], world, pool, nshards)):
+            for i, l in zip(idx, run_cases(binp, [cases[i] for i in idx], world, pool, nshards, K)):
                 res[i] = l
         return res
     pre = [] if special else ["--cfg=debug/stacktrace:none"]
-    chunks = [cases[i::nshards] for i in range(nshards)]
+    nshards = max(1, min(nshards, len(cases) // (4 * K) + 1))
+    per = (len(cases) + nshards - 1) // nshards          # contiguous chunks: consecutive cases are about different items
+    chunks = [cases[i * per:(i + 1) * per] for i in range(nshards)]
     def one(chunk):
         if not chunk:
             return []
@@ -85,7 +87,7 @@ def run_cases(binp, cases, world, pool, nshards):
         env = dict(os.environ)
         if world == "mc-replay":
             env["C48_MC_REPLAY"] = "1"
-        r = subprocess.run([binp] + pre + ["cases"], input=inp, stdout=subprocess.PIPE, stderr=subprocess.DEVNULL, text=True, env=env)
+        r = subprocess.run([binp] + pre + ["cases", str(K)], input=inp, stdout=subprocess.PIPE, stderr=subprocess.DEVNULL, text=True, env=env)
         res = {}
         for l in r.stdout.split("\n"):
             m = re.match(r"^(\d+) (.*)$", l)
@@ -95,11 +97,9 @@ def run_cases(binp, cases, world, pool, nshards):
             common.log("verif: C48 harness lost cases (%d of %d, exit %s)" % (len(res), len(chunk), r.returncode))
             sys.exit(2)
         return [res[i] for i in range(len(chunk))]
-    outs = list(pool.map(one, chunks))
-    res = [None] * len(cases)
-    for k, o in enumerate(outs):
-        for j, l in enumerate(o):
-            res[k + j * nshards] = l
+    res = []
+    for o in pool.map(one, chunks):
+        res += o
     return res
 
 
@@ -264,7 +264,18 @@ def run(ctx):
         cases = build_cases(items, aliases, defaults, docs, ctx.quick)
         if world != "plain":       # second world: only the items that refused everything in the first one
             cases = [c for c in cases if c["readname"] in cov["worlds"]["plain"]["locked_items"]]
-        lines = run_cases(binp, [(c["route"], c["name"], c["type"], c["value"], c["readname"]) for c in cases], world, pool, NSH)
+        # round-robin over the items, so that a forked child can run a batch of cases about different items; the
+        # documented values (whose rejection would be a violation) each get a child of their own
+        rank = {}
+        for c in cases:
+            rank[c["readname"]] = rank.get(c["readname"], -1) + 1
+            c["_rank"] = rank[c["readname"]]
+        cases.sort(key=lambda c: (c["cls"] == "documented", c["_rank"], c["readname"]))
+        tup = lambda c: (c["route"], c["name"], c["type"], c["value"], c["readname"])
+        batchable = [c for c in cases if c["cls"] != "documented"]
+        solo = [c for c in cases if c["cls"] == "documented"]
+        lines = run_cases(binp, [tup(c) for c in batchable], world, pool, NSH, K=24) + \
+            run_cases(binp, [tup(c) for c in solo], world, pool, NSH, K=1)
         accepted_by_item = {}
         for c, l in zip(cases, lines):
             if l.startswith("ok "):
@@ -367,6 +378,13 @@ def run(ctx):
         if a != b:
             common.log("verif: C48 %s does not reproduce identically: %r / %r" % (key, a, b))
             sys.exit(2)
+        if c.get("route") in ("parse", "string", "typed", "capi", "get") and c.get("cls") != "unknown":
+            # the case ran in a batch with cases about other items: only what it does alone counts
+            rebad = judge(c, a, set(cov["worlds"].get(world, {}).get("locked_items", [])), pagesize)[1] if c["route"] != "get" else (key, a)
+            if not rebad:
+                cov.setdefault("not_confirmed_alone", []).append(key)
+                continue
+            what = rebad[1]
         routes = sorted(set(v[0].get("route", "") for v in viol[key]))
         more = " (routes: %s)" % ", ".join(routes)
         violations.append(common.Violation(key, "%s%s [alone: %s]" % (what, more, a[:120]), dict(c, world=world)))
